@@ -1187,6 +1187,32 @@ func newRlua() *rlua {
 		}
 		return []rval{ipairsAux, args[0], LNumber(0)}
 	})
+	// tostring (lbaselib.c luaB_tostring): __tostring from the metatable by a raw look-up, called with the value;
+	// otherwise the primitive spellings.  Tables and functions have an address-based spelling that no template
+	// may observe directly (it is returned as a fixed marker).
+	reg("tostring", func(r *rlua, args []rval) []rval {
+		if len(args) == 0 {
+			r.fail("bad argument #1 to 'tostring' (value expected)")
+		}
+		v := args[0]
+		if h := r.metaEvent(v, "__tostring"); h != rval(LNil) {
+			return []rval{first(r.call(h, []rval{v}))}
+		}
+		switch x := v.(type) {
+		case LString:
+			return []rval{x}
+		case LNumber:
+			return []rval{LString(rnum2str(float64(x)))}
+		case LBool:
+			if bool(x) {
+				return []rval{LString("true")}
+			}
+			return []rval{LString("false")}
+		case *LNilType:
+			return []rval{LString("nil")}
+		}
+		return []rval{LString("<address-based spelling>")}
+	})
 	reg("tonumber", func(r *rlua, args []rval) []rval {
 		if v, ok := rtonumber(arg(args, 0)); ok {
 			return []rval{LNumber(v)}
